@@ -57,6 +57,9 @@ func execRel(r *RNG, c *Case) {
 		b = runFastaRoute(c, c.Get("relkind"))
 	case "legacy", "unwrap-toma":
 		a, b = execRelSam(c)
+	case "fourway":
+		execFourWay(c)
+		return
 	case "snpsagg":
 		a = runSnps(c, false)
 		b = runSnps(c, true)
